@@ -26,7 +26,9 @@ Judge(r) ==
          /\ IF IsFS(r) THEN Flag(Deploy(r.name), "DRIFT", "SpecStep", r, {}) ELSE TRUE
     [] r.act = "probe"    -> Flag(ToSet(r.broke) = BrokenWithout(r.name), "DRIFT", "Dependencies", r, {})
     [] r.act = "version"  -> Flag(r.v = r.repo, "C15", "VersionIsRepoVersion", r, {})
-    [] r.act = "binding"  -> Flag(r.found /\ r.arityOK, "C15", "BindingCallsExistingMethod", r, {})
+    [] r.act = "binding"  ->
+         /\ Flag(r.found /\ r.arityOK, "C15", "BindingCallsExistingMethod", r, {})
+         /\ Flag(r.forwarded, "C15", "BindingForwardsArguments", r, {})
     [] r.act = "decode"   -> Flag(r.ok, "C15", "BindingDecodesResult", r, {})
     [] r.act = "regen"    -> Flag(r.same, "C15", r.what, r, {})
     [] r.act = "diffreplay" -> Flag(r.same, "C15", "BehavesLikeSource", r, {})
